@@ -32,6 +32,9 @@ static void watchdog(int sec) {
   setitimer(ITIMER_PROF, &t, nullptr);
 }
 
+// last library entry point started, for attributing a watchdog kill (no stack then)
+static void stage(const char* name) { fprintf(stderr, "stage %s\n", name); }
+
 static std::vector<std::string> split(const std::string& s) {
   std::vector<std::string> out;
   std::istringstream is(s);
@@ -359,17 +362,22 @@ int main() {
       Polygons ps = readPolys(c);
       std::vector<ivec3> tris;
       int threw = 0;
+      stage("Triangulate");
       try { tris = Triangulate(ps, eps); } catch (...) { threw = 1; }
       size_t nv = 0;
       for (auto& p : ps) nv += p.size();
       int bad = 0;
       for (auto& t : tris) for (int k : {0, 1, 2}) if (t[k] < 0 || (size_t)t[k] >= nv) bad = 1;
+      stage("CrossSection");
       CrossSection cs(ps);
       CrossSection cs2 = CrossSection::EvenOdd(ps).Offset(0.1).Simplify(0.01);
       volatile double a = cs.Area() + cs2.Area() + cs.NumVert();
       (void)a;
+      stage("Extrude");
       Manifold e = Manifold::Extrude(ps, 1.0, 2, 10.0);
+      stage("Revolve");
       Manifold r = Manifold::Revolve(ps, 8, 270);
+      stage("observe");
       observe(e); observe(r);
       printf("O %s %d %zu | tri:%zu threw:%d badindex:%d ex:%d rv:%d\n", id.c_str(), (int)e.Status(), e.NumTri(), tris.size(),
              threw, bad, (int)e.Status(), (int)r.Status());
@@ -377,10 +385,12 @@ int main() {
       size_t n = c.u();
       std::vector<vec3> pts(n);
       for (auto& p : pts) { p.x = c.d(); p.y = c.d(); p.z = c.d(); }
+      stage("Hull");
       usable(id, "Hull", Manifold::Hull(pts));
     } else if (kind == "B") {  // OBJ text, hex encoded
       std::string txt = unhex(c.next());
       std::istringstream is(txt);
+      stage("ReadOBJ");
       Manifold m = Manifold::ReadOBJ(is);
       std::istringstream is2(txt);
       MeshGL64 g = ReadOBJ(is2);
@@ -391,6 +401,7 @@ int main() {
       std::string what = c.next();
       double a = c.d(), b = c.d(), d = c.d();
       long n = (long)c.d();
+      stage(what.c_str());
       Manifold m;
       if (what == "Cube") m = Manifold::Cube({a, b, d}, n & 1);
       else if (what == "Cylinder") m = Manifold::Cylinder(a, b, d, (int)n, n & 1);
